@@ -1,5 +1,6 @@
 mod drive;
 mod front;
+mod front2;
 
 use pdlmc_core::graph::Tier;
 
@@ -31,8 +32,8 @@ fn main() {
                 "C08" => front::check_c08(tier),
                 "C09" => front::check_c09(tier),
                 "C16" => front::check_c16(tier),
-                "C10" => front::check_c10(tier),
-                "C12" => front::check_c12(tier),
+                "C10" => front2::check_c10(tier),
+                "C12" => front2::check_c12(tier),
                 _ => usage(),
             };
             std::process::exit(code);
